@@ -1,11 +1,19 @@
 import RattrDriver.JsonUtil
+import RattrDriver.C12
 import RattrModel.Serialise
+import RattrModel.IrDocument
 
 /-
   Driver for C18. Ops:
     `ser`       {kind, obj}  → {doc}            the model's document for an object (sets come as
                                                 lists in their real iteration order)
     `structure` {kind, doc}  → {ok: obj} | {err} the model's structure hook on a document
+    `ir_document` {flags, modules, target, irs, target_name, target_ir, cache_infos}
+                → {outcome, analysed, missing, doc, cache_imports, perm_invariant}
+                  the import BFS (`Imports.bfs`) on the module graph the real locator gives, the IR
+                  document assembled in that order (`Ser.irDocument`; `irs` is given sorted by module
+                  name, the order of the answer comes from the BFS alone) and the sorted `imports` list
+                  of the cacheable document (`Ser.cacheImports`)
   Documents travel in an ORDER-PRESERVING neutral encoding (Lean's `Json.obj` is a tree map and
   would lose key order): null/bool/number/string as themselves, list → {"a":[…]},
   dict → {"o":[[k,v],…]}.
@@ -264,5 +272,75 @@ def handleStructure (payload : Json) : R Json := do
   | "results" => return wrap encFileResults (stFileResults doc)
   | "cacheable" => return wrap encCacheable (stCacheable doc)
   | _ => .error s!"unknown kind {kind}"
+
+/-! op `ir_document` -/
+
+open Rattr.Imports in
+def modStr (m : C12.Mod) : Module Str String :=
+  { name := s2 m.name, origin := m.origin, readable := m.readable, blacklisted := m.blacklisted,
+    inPip := m.inPip, inStdlib := m.inStdlib, excluded := m.excluded,
+    imports := m.imports.map fun i => { target := i.target.map s2, declBlacklisted := i.declBlacklisted } }
+
+def decInfos (j : Json) : R (List (Option ImportInfo)) := do
+  (← asArr j).mapM fun e =>
+    match e with
+    | .null => pure none
+    | _ => do
+      match (← asArr e) with
+      | [a, b] => return some { filepath := s2 (← asStr a), filehash := s2 (← asStr b) }
+      | _ => .error "expected [filepath, filehash]"
+
+open Rattr.Imports in
+def handleIrDocument (payload : Json) : R Json := do
+  let fl ← C12.parseFlags (← field payload "flags")
+  let g : Graph Str String := (← (← asArr (← field payload "modules")).mapM C12.parseModule).map modStr
+  let target : List (Imp Str) := (← C12.parseImps (← field payload "target")).map fun i =>
+    { target := i.target.map s2, declBlacklisted := i.declBlacklisted }
+  for i in target ++ g.flatMap (·.imports) do
+    match i.target with
+    | some n => if (lookup g n).isNone then throw s!"graph not closed: {toS n}"
+    | none => pure ()
+  let irs ← (← asArr (← field payload "irs")).mapM fun e => do
+    match (← asArr e) with
+    | [k, v] => return (s2 (← asStr k), (← decFileIr v))
+    | _ => .error "expected [module, ir]"
+  let tname := s2 (← asStr (← field payload "target_name"))
+  let tir ← decFileIr (← field payload "target_ir")
+  let emptyIr : FileIr := { context := .mk none [] [], fileIr := [] }
+  let irOf : Str → FileIr := fun n => ((irs.find? (fun p => p.1 == n)).map (·.2)).getD emptyIr
+  let out := bfs g fl (fuelBound g target) target
+  let analysed := out.state.analysed
+  let missing := analysed.filter fun n => !(irs.any fun p => p.1 == n)
+  let doc := irDocument g fl target irOf tname tir
+  let ci ← field payload "cache_infos"
+  let tInfos ← decInfos (← field ci "target")
+  let mInfos ← (← asArr (← field ci "modules")).mapM fun e => do
+    match (← asArr e) with
+    | [k, v] => return (s2 (← asStr k), (← decInfos v))
+    | _ => .error "expected [module, infos]"
+  let infosOf : Str → List (Option ImportInfo) := fun n => ((mInfos.find? (fun p => p.1 == n)).map (·.2)).getD []
+  let keys := (assignIrs irOf analysed).map Prod.fst
+  let stream := cacheInfoStream tInfos infosOf keys
+  let imports := cacheImports id stream
+  let set := dedupBy importInfoEq stream
+  -- hypothesis of C18_cache_imports_canonical, and two concrete iteration orders of the set
+  let distinct := decide ((set.map (·.filepath)).Nodup)
+  let rev := decide (cacheImports List.reverse stream = imports)
+  let rot := decide (cacheImports (fun l => l.drop 1 ++ l.take 1) stream = imports)
+  -- the same set of contexts walked in reverse BFS order
+  let revKeys := decide (cacheImports id (cacheInfoStream tInfos infosOf keys.reverse) = imports)
+  return Json.mkObj [
+    ("outcome", Json.str (C12.outcomeStr (match out with
+      | .done _ => (.done St.empty : Out String String) | .fatal _ => .fatal St.empty
+      | .crash _ => .crash St.empty | .outOfFuel _ => .outOfFuel St.empty))),
+    ("analysed", jStrList (analysed.map toS)),
+    ("keys", jStrList (keys.map toS)),
+    ("missing", jStrList (missing.map toS)),
+    ("doc", match doc with | some d => encDoc d | none => Json.null),
+    ("doc_import_keys", jStrList ((match doc with | some d => docImportKeys d | none => []).map toS)),
+    ("cache_imports", Json.arr (imports.map fun i => Json.arr #[jS i.filepath, jS i.filehash]).toArray),
+    ("perm_invariant", Json.mkObj [("CacheFilepathsDistinct", Json.bool distinct),
+      ("cacheImports-set-reversed", Json.bool rev), ("cacheImports-set-rotated", Json.bool rot),
+      ("cacheImports-contexts-reversed", Json.bool revKeys)])]
 
 end Rattr.Driver.C18
